@@ -392,7 +392,12 @@ def execute(env, sc):
     for name, addrs in dns.items():
         env.dns.set(name, addrs)
     env.origin.default_behaviour = dict(behaviour) if behaviour else {"status": 404, "reason": "Not Found", "body_b64": "", "framing": "length"}
-    c = client.Conn(env.port, timeout=25)
+    try:
+        c = client.Conn(env.port, timeout=25)
+    except OSError:
+        if env.health(r):
+            r.inconclusive = "could not connect to the proxy"
+        return r
     try:
         c.send(data)
         m = c.read_response(method.encode("latin-1"), timeout=25)
